@@ -23,7 +23,18 @@ def run(ctx):
     return [
         refine.refine_batch(ctx, ctx.size(120, 1500), force=FORCE, pid=PID, name="trace-refinement(Tree.step vs DemeTree.run)"),
         runs.monitor_batch(ctx, PID, ctx.size(250, 3000), force=FORCE),
+        _shared_mechanism(ctx),
     ]
+
+
+def _shared_mechanism(ctx):
+    """two trees that share one sprout mechanism object, stepped side by side: every seed the chain hands
+    out is an individual of its parent's current population"""
+    from . import c15
+
+    sl = c15.shared_generator(ctx, 16 if not ctx.thorough else 300, 9, only="C07/")
+    sl.name = "one sprout mechanism object serving two trees (every seed comes from its parent's current population)"
+    return sl
 
 
 def search(ctx, broken):
